@@ -301,8 +301,17 @@ def check_setup(ctx):
     rets = [s for s in f.body if isinstance(s, ast.Return)]
     a = [x.arg for x in f.args.args]
     sd_ = {n_: v_ for n_, v_ in util.single_defs(f).items() if v_ is not None}
-    ok = len(rets) == 1 and src(util.inline(rets[0].value, sd_)).replace(' ', '') in (
-        'ArrayDelayQueue(np.zeros((%s,%s)),%s,0.0)' % (a[0], a[1], a[2]), 'ArrayDelayQueue(np.zeros((%s,%s)),%s,0)' % (a[0], a[1], a[2]))
+    ok = False
+    if len(rets) == 1:
+        rv = util.inline(rets[0].value, sd_)
+        # ArrayDelayQueue(np.zeros((reactions, slots)[, dtype = a double type]), dt, 0)
+        if isinstance(rv, ast.Call) and src(rv.func) == 'ArrayDelayQueue' and len(rv.args) == 3 and not rv.keywords:
+            z, d_, t0 = rv.args
+            zkw = {k_.arg: src(k_.value).replace(' ', '') for k_ in z.keywords} if isinstance(z, ast.Call) else None
+            ok = isinstance(z, ast.Call) and src(z.func) in ('np.zeros', 'numpy.zeros') and len(z.args) == 1 \
+                and src(z.args[0]).replace(' ', '') in ('(%s,%s)' % (a[0], a[1]), '[%s,%s]' % (a[0], a[1])) \
+                and set(zkw) <= {'dtype'} and zkw.get('dtype', 'float') in ('float', 'np.float64', 'np.double', 'np.float_', 'numpy.float64', "'float64'", "'d'", 'np.dtype(float)') \
+                and src(d_) == a[2] and src(t0) in ('0.0', '0', '0.')
     ok = ok and not any(isinstance(n_, ast.Global) for n_ in ast.walk(f))
     ctx.ob('R10.5-queue-setup', 'setup_queue', ok, ctx.loc('simulator', f), 'setup_queue builds an empty (reactions x slots) queue with step dt', '')
     sl = simloop.SimLoop(ctx, 'DelaySSASimulator')
